@@ -28,7 +28,15 @@ names (r < r-a < r0 but r-a.pt < r.pt < r0.pt): the subset criteria are defined 
 every chosen id is smaller / greater as a string than every id left behind) and the error-rate command is modelled
 with incomplete directories under --warn-missing -- two listings ascending by id walked in step (ErMerge) keep exactly
 the utterances in both directories (ErMergeOK), over which the totals are taken.  Two deliberately wrong definitions
-(CommandsMC: SelectsGlob, ListKeyFileName) must be rejected by TLC (Naming; SubOK and ErMergeOK)."""
+(CommandsMC: SelectsGlob, ListKeyFileName) must be rejected by TLC (Naming; SubOK and ErMergeOK).
+
+Line order of a ctm file and the integer ids of the error-rate command.  A ctm case holds its input FILE as a sequence
+of lines (utterances grouped, interleaved, backwards, all lines by start time -- with the maps of --wc2utt / --utt2wc
+sending the two channels of one recording to two utterances); its meaning "utterance -> segments sorted by start" does
+not depend on that order (CtmOrderFree: the exported file and, for files of up to four lines, every permutation of the
+lines); the file is written as given and ctm -> directory -> ctm is replayed on the directory the first command
+really made.  The error-rate figures do not depend on the integer ids the tokens are stored under (ErIdFree, id
+tables with -1, -2, -3): tiny corpora x every option x every id table are run with and without --id2token."""
 import contextlib
 import io
 import json
@@ -378,10 +386,10 @@ def fam_ctm(env):
     wc = _ctm_maps(env)
     kind, shift = rec["kind"], rec["shift"]
     ctm = env.p("in.ctm")
-    with open(ctm, "w") as f:
-        for u, tr in zip(env.utts, rec["data"]):
-            for x in tr:
-                f.write("%s %s %s %s %s\n" % (wc[u][0], wc[u][1], repr(x["s"] / 1000.0), repr(x["d"] / 1000.0), env.tt[x["tok"]]))
+    with open(ctm, "w") as f:  # the LINES of the specification's file, in its order (utterances need not be grouped)
+        for ln in rec.get("file") or [dict(u=i + 1, x=x) for i, tr in enumerate(rec["data"]) for x in tr]:  # (cases saved earlier: grouped)
+            u, x = env.utts[ln["u"] - 1], ln["x"]
+            f.write("%s %s %s %s %s\n" % (wc[u][0], wc[u][1], repr(x["s"] / 1000.0), repr(x["d"] / 1000.0), env.tt[x["tok"]]))
     t2i = write_token_map(env, False)
     margs = []
     if kind in ("wc2utt", "utt2wc"):
@@ -393,6 +401,7 @@ def fam_ctm(env):
     want = {nm: [[IDS[r[0]], r[1], r[2]] for r in rows] for nm, rows in zip(env.names, rec["rows"])}
     obs = {}
     s1 = "ctm-to-torch-token-data-dir"
+    before = len(env.ctx.violations) + sum(env.ctx.known_hits.values())
     try:
         env.run(s1, cl.ctm_to_torch_token_data_dir,
                 [ctm, t2i, env.p("dir"), "--frame-shift-ms", shift] + margs + env.naming_args() + env.worker_args())
@@ -413,6 +422,30 @@ def fam_ctm(env):
         _save(os.path.join(d2, dn), torch.tensor([[IDS[1], 0, 1]]))
     s2 = "torch-token-data-dir-to-ctm"
     bargs = list(margs) if margs else (["--channel", "B"] if kind == "chan" else [])
+    # the composition ctm -> directory -> ctm on the directory the first command really made (if nothing was found
+    # wrong with it above): every utterance comes back with its segments, times within one frame
+    if "dir" in obs and len(env.ctx.violations) + sum(env.ctx.known_hits.values()) == before:
+        try:
+            env.run(s2, cl.torch_token_data_dir_to_ctm,
+                    [env.p("dir"), t2i, env.p("rt.ctm"), "--swap", "--frame-shift-ms", shift] + bargs + env.naming_args(),
+                    uses_pool=False)
+            inv = {v: k for k, v in wc.items()}
+            got = dict(data.read_ctm(env.p("rt.ctm"), inv if kind in ("wc2utt", "utt2wc") else None))
+            tinv = _tr.inv_table(env.tt)
+            with open(ctm) as f:
+                written = f.read()
+            for u, srt, ordered in zip(env.utts, rec["sorted"], rec["ordered"]):
+                g = [(tinv.get(x[0]), x[1] * 1000.0, x[2] * 1000.0) for x in got.get(u, [])]
+                if not ordered and len(g) == len(srt):
+                    continue
+                if not _within(g, srt, shift):
+                    env.violation("ctm->dir->ctm", "roundtrip_segments" if len(g) != len(srt) else "roundtrip_beyond_one_frame",
+                                  "utterance %r: the ctm file %r (map %s) holds the segments %r for it; after ctm -> token "
+                                  "directory -> ctm it has %r (ms), frame shift %r ms" % (u, written, kind, srt, g, shift),
+                                  **(dict(cls="lines_not_grouped") if rec.get("scattered") else {}))
+                    break
+        except CommandFailed:
+            pass
     try:
         env.run(s2, cl.torch_token_data_dir_to_ctm,
                 [d2, t2i, env.p("out.ctm"), "--swap", "--frame-shift-ms", shift] + bargs + env.naming_args(), uses_pool=False)
@@ -542,6 +575,9 @@ def fam_er(env):
     if not rec["defined"]:
         env.ctx.count("er_undefined_figure_not_run")
         return {}
+    ids = dict(zip((1, 2), rec.get("ids") or (IDS[1], IDS[2])))  # the integer ids the abstract tokens are stored under (may be negative)
+    i2t = rec.get("i2t", False)
+    name = (lambda t: env.tt[t]) if i2t else (lambda t: str(ids[t]))  # how the replace / ignore lists name a token
     present = {"ref": rec.get("inref") or [True] * len(env.names), "hyp": rec.get("inhyp") or [True] * len(env.names)}
     kept = [env.utts[i - 1] for i in rec["kept"]] if "kept" in rec else list(env.utts)  # in both directories
     for sub, k in (("ref", 0), ("hyp", 1)):
@@ -550,22 +586,27 @@ def fam_er(env):
             if not there:
                 continue
             seq = pair[k]
-            t = torch.tensor([IDS[x] for x in seq], dtype=torch.long)
+            t = torch.tensor([ids[x] for x in seq], dtype=torch.long)
             if env.idx % 2:  # (R, 3) tensors with segment times are accepted too
                 t = torch.stack([t, torch.arange(len(seq)), torch.arange(len(seq)) + 1], -1) if len(seq) else t.reshape(0, 3)
             _save(os.path.join(env.p(sub), nm), t)
         for dn in env.distractors[:1 + k]:
-            _save(os.path.join(env.p(sub), dn), torch.tensor([IDS[1], IDS[2]]))
+            _save(os.path.join(env.p(sub), dn), torch.tensor([ids[1], ids[2]]))
     args = [env.p("ref"), env.p("hyp"), env.p("out.txt"), "--quiet", "--batch-size", rec["bs"]] + env.naming_args()
+    if i2t:
+        with open(env.p("id2token.txt"), "w") as f:
+            for t in (1, 2):
+                f.write("%d %s\n" % (ids[t], env.tt[t]))
+        args += ["--id2token", env.p("id2token.txt")]
     c = rec["costs"]
     args += ["--nist-costs"] if (c == [3, 3, 4] and env.idx % 2) else ["--costs", c[0], c[1], c[2]]
     if rec["rep"]:
         with open(env.p("replace.txt"), "w") as f:
-            f.write("%d %d\n" % (IDS[rec["rep"][0]], IDS[rec["rep"][1]]))
+            f.write("%s %s\n" % (name(rec["rep"][0]), name(rec["rep"][1])))
         args += ["--replace", env.p("replace.txt")]
     if rec["ign"]:
         with open(env.p("ignore.txt"), "w") as f:
-            f.write(" ".join(str(IDS[x]) for x in rec["ign"]) + "\n")
+            f.write(" ".join(name(x) for x in rec["ign"]) + "\n")
         args += ["--ignore", env.p("ignore.txt")]
     if rec["dist"]:
         args += ["--distances"]
@@ -582,6 +623,7 @@ def fam_er(env):
     with open(env.p("out.txt")) as f:
         text = f.read()
     eps = 1e-9
+    idcls = dict(cls="negative_ids") if min(ids.values()) < 0 else {}
     try:
         if rec["perutt"]:
             got = {ln.split()[0]: float(ln.split()[1]) for ln in text.splitlines() if ln.strip()}
@@ -598,17 +640,18 @@ def fam_er(env):
                 den = 1 if rec["dist"] else rl
                 if not (lo - eps <= got[u] * den <= hi + eps):
                     env.violation(site, "value", "utterance %r: printed %r; edits of a minimum-cost alignment are in "
-                                  "[%d, %d], reference length %d (pairs %r, options %r)" % (u, got[u], lo, hi, rl, rec["data"], args[3:]))
+                                  "[%d, %d], reference length %d (pairs %r stored under the ids %r, options %r)"
+                                  % (u, got[u], lo, hi, rl, rec["data"], ids, args[3:]), **idcls)
                     break
         else:
             v = float(text.strip())
             den = len(kept) if rec["dist"] else rec["totlen"]
             if not (rec["totlo"] - eps <= v * den <= rec["tothi"] + eps):
-                env.violation(site, "value", "printed %r; total edits in [%d, %d] over %s %d (pairs %r, options %r%s)"
+                env.violation(site, "value", "printed %r; total edits in [%d, %d] over %s %d (pairs %r stored under the ids %r, options %r%s)"
                               % (v, rec["totlo"], rec["tothi"], "utterances" if rec["dist"] else "reference tokens", den,
-                                 rec["data"], args[3:],
+                                 rec["data"], ids, args[3:],
                                  "; utterances %r, of which only one directory holds %r" % (env.utts, incomplete) if incomplete else ""),
-                              **(dict(cls="incomplete_directories") if incomplete else {}))
+                              **(dict(cls="incomplete_directories") if incomplete else idcls))
     except (ValueError, IndexError):
         env.violation(site, "format", "cannot parse the output %r" % (text[:200],))
     return dict(out=text)
@@ -1036,7 +1079,8 @@ def run(ctx):
     ctx.rule = ("every case exported by TLC from Commands.tla (corpora of 1-4 utterances x default / non-default "
                 "prefix and suffix -- also prefixes, suffixes and directory names holding [ ] * ?, and ids whose order is not "
                 "that of their file names -- x the commands' option universes, with files in the input directories that must "
-                "not be selected; error rates also with incomplete directories under --warn-missing) drives the real console entry points in-process: serially, under a FakePool "
+                "not be selected; ctm files with their lines in grouped / interleaved / reversed / time order; error rates also with "
+                "incomplete directories under --warn-missing, with tokens stored under negative ids and with --id2token) drives the real console entry points in-process: serially, under a FakePool "
                 "behaviour of WorkerPool.tla chosen round-robin, and -- on the larger corpora -- under every "
                 "behaviour an in-process pool can distinguish; histories of 2-3 subset runs into one destination with "
                 "the source data changing in between are replayed run by run.  Non-trivial: >= 2 utterances, a non-default prefix "
@@ -1046,6 +1090,7 @@ def run(ctx):
         "entry points are called in-process through their python functions with argument lists",
         "times are multiples of 125 ms or of the frame shift, frame shifts integer ms (float arithmetic exact); the "
         "documented frame formulas are compared informationally, verdicts use the one-frame bound",
+        "ctm: the segments of one utterance start at different times (equal starts keep the order of their lines: not judged)",
         "error rates: missing utterances only together with --warn-missing (without it the command refuses: not judged); "
         "ids are free of white space (the per-utterance output separates id and figure by a space)",
         "error rates: per-utterance figures and totals with a zero denominator are not defined and not run; for "
@@ -1104,6 +1149,17 @@ def run(ctx):
                 raise MachineryError("%s: no corpus whose ids and file names sort differently" % name)
             if fam == "er" and not any(x["warn"] and not all(x["inhyp"]) for x in recs[fam]):
                 raise MachineryError("%s: no incomplete hypothesis directory" % name)
+            if fam == "er":
+                for i2t in (False, True):
+                    for bs in {x["bs"] for x in recs[fam]}:
+                        if not any(x["i2t"] == i2t and x["bs"] == bs and x["defined"] and -1 in [x["ids"][t - 1] for p in x["data"] for q in p
+                                   for t in q if t not in x["ign"] and not (x["rep"] and x["rep"][0] == t)] for x in recs[fam]):
+                            raise MachineryError("%s: no case (id2token %r, batch size %r) with the id -1 surviving --replace / --ignore"
+                                                 % (name, i2t, bs))
+            if fam == "ctm":
+                for kinds in (("default", "chan"), ("wc2utt",), ("utt2wc",)):
+                    if not any(x["scattered"] and x["kind"] in kinds and any(len(d) >= 2 for d in x["data"]) for x in recs[fam]):
+                        raise MachineryError("%s: no ctm file (map %r) in which the lines of an utterance are apart" % (name, kinds))
         else:
             tlc.require_covered(r, _tr.WP_ACTIONS, name)
     schedules = _tr.group_schedules(res["WorkerPool/schedules"].records)
